@@ -28,7 +28,7 @@ def main():
     out = {}
     for k, n in sorted(maxc.items()):
         old = table.get(k, {})
-        out[k] = {"count": max(n, old.get("count", 0)) if old else n, "reason": old.get("reason", "UNREVIEWED")}
+        out[k] = {"count": n, "reason": old.get("reason", "UNREVIEWED")}
     os.makedirs(os.path.dirname(rpanic.TABLE), exist_ok=True)
     json.dump(out, open(rpanic.TABLE, "w"), indent=0, sort_keys=True)
     print(len(out), "rows;", sum(1 for v in out.values() if v["reason"] == "UNREVIEWED"), "unreviewed")
